@@ -41,7 +41,7 @@ theorem uploadPartTail_ok (c : Cfg) : TailOk [.flush, .mkdirs c.mkdirsFails, .re
 
 /-- the steps that follow the rename: they touch neither the destination nor a temporary file -/
 def PostStep : Step → Prop
-  | .moveMeta _ _ | .saveMeta _ | .dropMeta _ | .saveInfo _ | .dropPart | .consume => True
+  | .saveMeta _ | .dropMeta _ | .saveInfo _ | .dropPart | .consume => True
   | _ => False
 
 theorem post_preserves {post : List Step} (hp : ∀ st ∈ post, PostStep st) :
@@ -58,12 +58,6 @@ theorem post_preserves {post : List Step} (hp : ∀ st ∈ post, PostStep st) :
       have hr : ∀ st ∈ r, PostStep st := fun x hx => hp x (List.mem_cons_of_mem _ hx)
       have hst := hp st (by simp)
       cases st <;> simp only [PostStep] at hst
-      case moveMeta has fails =>
-        cases has <;> cases fails <;> simp only [prefixRun, exec, Bool.not_false, Bool.not_true, Bool.false_eq_true, ↓reduceIte]
-        · exact ih hr k s
-        · exact ih hr k s
-        · have := ih hr k { s with mdata := .new }; simpa using this
-        · simp [outSt]
       case saveMeta fails =>
         cases fails <;> simp only [prefixRun, exec, Bool.false_eq_true, ↓reduceIte]
         · have := ih hr k { s with mdata := .new }; simpa using this
@@ -107,7 +101,9 @@ theorem doneThenPost_ok (mf rf : Bool) {post : List Step} (hp : ∀ st ∈ post,
 theorem completePost_post (c : Cfg) : ∀ st ∈ completePost c, PostStep st := by
   intro st hst
   simp only [completePost, List.mem_cons, List.mem_append, List.mem_map, List.mem_nil_iff, or_false] at hst
-  rcases hst with (rfl | ⟨_, _, rfl⟩) | rfl <;> trivial
+  rcases hst with (rfl | rfl | ⟨_, _, rfl⟩) | rfl
+  · cases c.hasMeta <;> trivial
+  all_goals trivial
 
 theorem completeTail_ok (c : Cfg) : TailOk (.mkdirs c.mkdirsFails :: .rename c.renameFails :: completePost c) 1 :=
   doneThenPost_ok _ _ (completePost_post c)
@@ -332,12 +328,13 @@ theorem run_parts (tail : List Step) : ∀ (parts : List Part) (all : Bytes), al
         rw [ih all' ha']
         simp [List.append_assoc]
 
-/-- running the steps after the rename (no fault among them): the metadata is the upload's (if it has any), every listed
-    part file and the upload record are gone; destination and temporary file are not touched -/
-theorem run_completePost (c : Cfg) (hf : c.hasMeta = true → c.metaFails = false) (s : St) :
+/-- running the steps after the rename (no fault among them): the metadata is the upload's (none if it has none), the
+    checksum record is new, every listed part file and the upload record are gone; destination and temporary file are not
+    touched -/
+theorem run_completePost (c : Cfg) (hf : c.metaFails = false) (hi : c.infoFails = false) (s : St) :
     run (completePost c) s =
-      (.ok, cleanup { s with mdata := if c.hasMeta then .new else s.mdata, partsGone := s.partsGone + c.parts.length,
-                             uploadRec := false }) := by
+      (.ok, cleanup { s with mdata := if c.hasMeta then .new else .absent, info := .new,
+                             partsGone := s.partsGone + c.parts.length, uploadRec := false }) := by
   have hdrop : ∀ (n : Nat) (s : St), run ((List.replicate n Step.dropPart) ++ [.consume]) s =
       (.ok, cleanup { s with partsGone := s.partsGone + n, uploadRec := false }) := by
     intro n
@@ -351,13 +348,8 @@ theorem run_completePost (c : Cfg) (hf : c.hasMeta = true → c.metaFails = fals
   have hmap : (c.parts.map fun _ => Step.dropPart) = List.replicate c.parts.length Step.dropPart :=
     List.map_const' ..
   unfold completePost
-  rw [hmap, List.cons_append]
-  cases hm : c.hasMeta with
-  | false => simp only [run, exec, Bool.not_false, ↓reduceIte]; rw [hdrop]; simp
-  | true =>
-    rw [hf hm]
-    simp only [run, exec, Bool.not_true, Bool.false_eq_true, ↓reduceIte]
-    rw [hdrop]
+  rw [hmap, List.cons_append, List.cons_append, hf, hi]
+  cases hm : c.hasMeta <;> simp only [run, exec, Bool.false_eq_true, ↓reduceIte] <;> rw [hdrop]
 
 theorem completeProg_eq (c : Cfg) :
     completeProg c = c.parts.map .probe ++ .sizes (c.parts.all Part.fine) :: .create :: .adopt ::
